@@ -316,7 +316,7 @@ fn bystander_scenario() -> ScenFn {
 }
 
 pub fn units(thorough: bool) -> Vec<Unit> {
-    let d = if thorough { 2 } else { 1 };
+    let d = if thorough { 3 } else { 1 };
     vec![
         explore_unit(
             "crash/idle",
